@@ -13,6 +13,7 @@ import re
 import json
 import os
 
+from rules import c05
 from gsa import facts, ir, kinds, paths, predeval
 from gsa.facts import Unit, rel, AnalysisBroken
 from gsa.report import Check
@@ -240,22 +241,25 @@ def check_index_kinds(chk, F):
         before = len(kc.reports)
         c0 = kc.checked
         kc.run(f)
-        per_fn[id(f)] = (f, kc.reports[before:], kc.checked - c0)
+        per_fn[id(f)] = (f, list(zip(kc.reports[before:], kc.report_sigs[before:])), kc.checked - c0)
     chk.count('index-kind meetings checked', kc.checked)
+    ok = TABLE['kind_conflations_ok']
     for f, reps, n in per_fn.values():
         if n == 0 and not reps:
             continue
         owner = f.get('clsname') or '-'
-        real = []
-        for node, msg in reps:
-            if '%s::%s|%s' % (owner, f['name'], msg) in TABLE['kind_conflations_ok']:
+        real, seen = [], {}
+        for (node, msg), sig in reps:
+            k = '%s::%s|%s' % (owner, f['name'], sig)
+            seen[k] = seen.get(k, 0) + 1
+            if k in ok and seen[k] <= ok[k]['n']:
                 chk.count('documented kind conflations')
                 continue
-            real.append((node, msg))
+            real.append((node, msg, sig))
         chk.ob('E11-index-kinds', '%s::%s keeps column indices, cell IDs and positions apart (%d meetings)'
                % (owner, f['name'], n), '%s:%d' % (rel(f['file']), f['line']), not real,
-               '; '.join('line %s: %s' % (nd.get('l'), m) for nd, m in real[:3]),
-               key='E11|%s::%s|%s' % (owner, f['name'], real[0][1][:60] if real else ''))
+               '; '.join('line %s: %s' % (nd.get('l'), m) for nd, m, _ in real[:3]),
+               key='E11|%s::%s|%s' % (owner, f['name'], real[0][2] if real else ''))
     chk.expect_count('E11-index-kinds', 'kind meetings', kc.checked, 150)
 
 
@@ -276,6 +280,7 @@ def run(tier, replay=None):
     check_ru_transposes(chk, ru)
     check_map_moves(chk, F)
     check_index_kinds(chk, F)
+    c05.run_row_kinds(chk, F, only=('ru_vine_swap.h',), floor=100)
     check_family(chk, F, 'Chain_vine_swap', CH, ['vine_swap', 'vine_swap_with_z_eq_1_case'], 'swap_positions',
                  kept='columnIndex2', exchanged='columnIndex1',
                  sign_vars={'col1IsNeg': (1, '-'), 'col2IsNeg': (2, '-')}, pairing_only=True)
@@ -365,14 +370,28 @@ def check_dictionary_cover(chk, F):
     soon as the last cells are positive)."""
     sw = [f for f in F.functions if f.get('clsname') == 'RU_vine_swap' and f.get('inst') in (0, 2) and
           f.get('body') is not None]
+
+    def names_dict(e):
+        e = ir.skipcasts(e)
+        while e is not None:
+            if e.get('n') == 'pivotToColumnIndex_':
+                return True
+            c = e.get('c') or []
+            if e.get('k') in ir.MEMBER_KINDS and c:
+                e = ir.skipcasts(c[0])
+                continue
+            return False
+        return False
     unguarded = []
     for f in sw:
         for x in ir.walk(f['body']):
-            if x.get('k') in ('ArraySubscriptExpr', 'CXXOperatorCallExpr') and (x.get('k') == 'ArraySubscriptExpr' or
-                                                                              x.get('op') == '[]'):
-                t = ir.show(x)
-                if 'pivotToColumnIndex_[' in t and 'columnIndex' in t:
-                    unguarded.append((f, x))
+            base = None
+            if x.get('k') == 'ArraySubscriptExpr':
+                base = x['c'][0]
+            elif x.get('k') == 'CXXOperatorCallExpr' and x.get('op') == '[]':
+                base = ir.call_args(x)[0]
+            if base is not None and names_dict(base):
+                unguarded.append((f, x))
     ins = [f for f in F.functions if f.get('clsname') == 'RU_matrix' and f['name'] == '_insert_boundary' and
            f.get('inst') in (0, 2) and f.get('body') is not None]
     if len(ins) != 1:
@@ -384,46 +403,88 @@ def check_dictionary_cover(chk, F):
                where, True, '', key='E5b|RU_matrix::_insert_boundary|dictionary-cover', nontrivial=False)
         return
     idx = f['params'][0]['n'] if f.get('params') else None
-    locs = {}
 
-    def value_names(e):
-        """names whose *value* flows into e by arithmetic: the arguments of calls are lookups, not magnitudes"""
-        out = []
-        stack = [e]
-        while stack:
-            y = stack.pop()
-            if y is None:
-                continue
-            if ir.is_call(y):
-                continue
-            if y.get('k') == 'DeclRefExpr':
-                out.append(y.get('n'))
-            stack.extend(ir.kids(y))
-        return out
-    for x in ir.walk(f['body']):
-        if x.get('k') == 'VarDecl' and x.get('init') is not None:
-            locs[x['n']] = value_names(x['init'])
-        if x.get('k') == 'BinaryOperator' and x.get('op') == '=':
-            l = ir.skipcasts(x['c'][0])
-            if l is not None and l.get('k') == 'DeclRefExpr':
-                locs.setdefault(l['n'], [])
-                locs[l['n']] += value_names(x['c'][1])
-
-    def depends(names, depth=3):
-        if idx in names:
-            return True
-        if depth == 0:
+    # lower-bound provenance, flow-sensitive: env maps a local to the list of its alternative reaching values; a value
+    # is "anchored" when it is the new column's index, an arithmetic expression over anchored values that does not
+    # subtract, the mapped value of a lookup of an anchored key (the row of that position), or a maximum with one
+    def anchored(e, env, depth=0):
+        e = ir.skipcasts(e)
+        if e is None or depth > 6:
             return False
-        return any(n in locs and depends(locs[n], depth - 1) for n in names)
-    resizes = [x for x in ir.walk(f['body']) if ir.is_call(x) and ir.call_name(x) == 'resize' and
-               'pivotToColumnIndex_' in ir.show(x)]
-    ok = any(depends(value_names(ir.call_args(r)[0])) for r in resizes if ir.call_args(r))
+        k = e.get('k')
+        if k == 'ParenExpr':
+            return anchored(e['c'][0], env, depth + 1)
+        if k == 'DeclRefExpr':
+            if e.get('n') == idx:
+                return True
+            alts = env.get(e.get('n'))
+            return bool(alts) and all(alts)
+        if k == 'BinaryOperator' and e.get('op') in ('+', '*'):
+            return any(anchored(c, env, depth + 1) for c in e['c'])
+        if k in ir.MEMBER_KINDS and e.get('n') == 'second' and e.get('c'):
+            return anchored(e['c'][0], env, depth + 1)          # it->second with it = find(anchored key)
+        if ir.is_call(e):
+            nm = ir.call_name(e)
+            if nm in ('find', 'at', '_get_row_id_from_position') and ir.call_args(e):
+                return anchored(ir.call_args(e)[-1], env, depth + 1)
+            if nm == 'max':
+                return any(anchored(a, env, depth + 1) for a in ir.call_args(e))
+        if k == 'ConditionalOperator':
+            return anchored(e['c'][1], env, depth + 1) and anchored(e['c'][2], env, depth + 1)
+        return False
+    verdicts = []
+
+    def raises_only(cond, var, rhs):
+        """`if (.. && rhs > var) var = rhs;` keeps the lower bound of var"""
+        t = ir.show(cond).replace(' ', '')
+        r, v = ir.show(rhs).replace(' ', ''), var
+        return ('%s>%s' % (r, v)) in t or ('%s<%s' % (v, r)) in t or ('%s>=%s' % (r, v)) in t or \
+               ('%s<=%s' % (v, r)) in t
+
+    def merge(e1, e2):
+        return {k: e1[k] + e2[k] for k in e1 if k in e2}      # locals of one arm end with it
+
+    def run_stmt(st, env, guard=None):
+        if st is None:
+            return env
+        k = st.get('k')
+        if k == 'CompoundStmt':
+            for c in st.get('c') or []:
+                env = run_stmt(c, env, guard)
+            return env
+        if k == 'DeclStmt':
+            for d in st.get('decls', []):
+                if isinstance(d, dict) and d.get('k') == 'VarDecl':
+                    env = dict(env)
+                    env[d['n']] = [anchored(d.get('init'), env)] if d.get('init') is not None else [False]
+            return env
+        if k == 'IfStmt':
+            e_then = run_stmt(st.get('then'), dict(env), st.get('cond'))
+            e_else = run_stmt(st.get('else'), dict(env), None) if st.get('else') is not None else dict(env)
+            return merge(e_then, e_else)
+        for x in ir.walk(st, into_lambdas=False):
+            if x.get('k') == 'BinaryOperator' and x.get('op') == '=':
+                l = ir.skipcasts(x['c'][0])
+                if l is not None and l.get('k') == 'DeclRefExpr' and l.get('n') in env:
+                    env = dict(env)
+                    if guard is not None and raises_only(guard, l['n'], x['c'][1]):
+                        pass                                     # raised, never lowered
+                    else:
+                        env[l['n']] = [anchored(x['c'][1], env)]
+            if ir.is_call(x) and ir.call_name(x) == 'resize' and names_dict(ir.call_receiver(x)) and ir.call_args(x):
+                verdicts.append((x, anchored(ir.call_args(x)[0], env)))
+        return env
+    run_stmt(f['body'], {})
+    if not verdicts:
+        raise AnalysisBroken('C06: RU_matrix::_insert_boundary no longer sizes pivotToColumnIndex_')
+    ok = all(v for _, v in verdicts)
     u = unguarded[0]
-    chk.ob('E5b-dictionary-cover', 'RU_matrix::_insert_boundary makes the pivot dictionary cover the inserted cell '
-           '(subscripted unchecked by %s, line %s)' % (u[0]['name'], u[1].get('l')), where, ok,
-           '' if ok else 'the size given to pivotToColumnIndex_.resize() does not depend on `%s`: the vector only '
-           'covers the pivots seen so far while %s subscripts it at the positions of the swapped cells' %
-           (idx, u[0]['name']), key='E5b|RU_matrix::_insert_boundary|dictionary-cover')
+    chk.ob('E5b-dictionary-cover', 'RU_matrix::_insert_boundary makes the pivot dictionary cover the row of the '
+           'inserted cell on every path (subscripted unchecked by %s, line %s)' % (u[0]['name'], u[1].get('l')), where,
+           ok, '' if ok else 'on some path the size given to pivotToColumnIndex_.resize() is not bounded below by the '
+           'row of the new column `%s` (its position, or the identifier registered for it): the vector only covers '
+           'the pivots seen so far while %s subscripts it at the rows of the swapped cells' % (idx, u[0]['name']),
+           key='E5b|RU_matrix::_insert_boundary|dictionary-cover')
 
 
 def check_reduction_order(chk, F):
